@@ -197,11 +197,29 @@ func writeRootHashRecord(buf []byte, root hash.Hash) (n uint32) {
 }
 
 func readJournalRecord(buf []byte) (rec journalRec, err error) {
+	if len(buf) < journalRecLenSz+journalRecChecksumSz {
+		err = fmt.Errorf("invalid journal record: buffer length too small (%d < %d)", len(buf), journalRecLenSz+journalRecChecksumSz)
+		return
+	}
 	rec.length = readUint32(buf)
 	buf = buf[journalRecLenSz:]
 	for len(buf) > journalRecChecksumSz {
 		tag := journalRecTag(buf[0])
 		buf = buf[journalRecTagSz:]
+		// every field must leave room for the trailing checksum
+		fieldSz := 0
+		switch tag {
+		case kindJournalRecTag:
+			fieldSz = journalRecKindSz
+		case addrJournalRecTag:
+			fieldSz = journalRecAddrSz
+		case timestampJournalRecTag:
+			fieldSz = journalRecTimestampSz
+		}
+		if len(buf) < fieldSz+journalRecChecksumSz {
+			err = fmt.Errorf("invalid journal record: field with tag %d is truncated", tag)
+			return
+		}
 		switch tag {
 		case kindJournalRecTag:
 			rec.kind = journalRecKind(buf[0])
